@@ -26,6 +26,7 @@ Proof.
   - apply int_text_ok.
   - apply int_text_ok.
   - apply hex8_text_ok.
+  - apply hex8_text_ok.
   - apply uuid_text_ok.
   - destruct (assoc_z to_tbl z); [|discriminate]. now apply andb_prop in H as [H _].
   - apply andb_prop in H as [H _]. now apply andb_prop in H as [H _].
@@ -38,6 +39,7 @@ Proof.
   - now rewrite mstr_roundtrip'.
   - now rewrite int_roundtrip.
   - now rewrite int_roundtrip.
+  - now rewrite hex8_roundtrip.
   - now rewrite hex8_roundtrip.
   - unfold uuid_ok in H. rewrite uuid_roundtrip by lia. reflexivity.
   - destruct (assoc_z to_tbl z) as [s|]; [|discriminate]. apply andb_prop in H as [_ H].
@@ -264,7 +266,7 @@ Proof.
            rewrite run_pipe by exact Hpipe. now apply IH.
         -- rewrite run_field_line by assumption. unfold on_key. rewrite Hfind, Hds. now apply IH.
       * destruct (pf_inone f) eqn:Ein; [|cbn [app]; now apply IH].
-        destruct (pf_kind f) as [| | | | | | |undef] eqn:Ek; try (cbn [app]; now apply IH).
+        destruct (pf_kind f) as [| | | | | | | |undef] eqn:Ek; try (cbn [app]; now apply IH).
         apply andb_prop in Hu as [Huok Hup]. apply negb_true_iff in Hup.
         unfold field_lines. cbn [is_llsd app].
         rewrite run_field_line by assumption. unfold on_key. rewrite Hfind, Ek. cbn [deser].
@@ -363,7 +365,7 @@ Proof.
               cbn [option_map]. now apply IH.
         -- discriminate.
         -- destruct (f_inone f) eqn:Ein; [|cbn [app]; now apply IH].
-           destruct k as [| | | | | | |undef]; try (cbn [app]; now apply IH).
+           destruct k as [| | | | | | | |undef]; try (cbn [app]; now apply IH).
            apply andb_prop in Hu as [Huok Hup]. apply negb_true_iff in Hup.
            unfold field_lines. cbn [is_llsd app].
            rewrite run_field_line by assumption. unfold on_key. rewrite Hfind, Esp. cbn [deser].
